@@ -576,6 +576,29 @@ func (p *c08) Run(raw json.RawMessage) eng.Result {
 			checkPresent(n, nil, full, "plain")
 			checkPresent(n, nil, renderSegs(n.segs, m.Ident()), "module-qualified")
 			checkPresent(n, nil, full+"/", "trailing-slash")
+			if n.leaf == nil && len(n.segs) >= 2 {
+				// a read filter of the request is not applied to the steps the navigation passes through:
+				// a budget of one node does not stop a path of several containers and lists
+				env := newC08Env(c.Tree, c.Store)
+				res.Evals++
+				res.Transitions++
+				res.Nontriv++
+				sel, err, fr, msg := find(env, nil, full+"?fc.max-node-count=1")
+				site := fmt.Sprintf("C08/with-node-budget/%s/%s", nodeKind(n), keyClass(n.segs))
+				switch {
+				case fr != "":
+					report(site+"/panic:"+fr, msg, nil, full+"?fc.max-node-count=1")
+				case err != nil:
+					report(site+"/error-for-present-node", err.Error(), nil, full+"?fc.max-node-count=1")
+				case sel == nil:
+					report(site+"/present-node-not-found", "Find returned (nil, nil)", nil, full+"?fc.max-node-count=1")
+				default:
+					plain, perr, _, _ := find(env, nil, full)
+					if perr != nil || plain == nil || plain.Path.String() != sel.Path.String() {
+						report(site+"/other-node", fmt.Sprintf("selection on %s", sel.Path.String()), nil, full+"?fc.max-node-count=1")
+					}
+				}
+			}
 			if n.leaf == nil {
 				checkPresent(n, nil, full+"?depth=9", "with-query")
 				checkPresent(n, nil, renderSegs(n.segs, m.Ident())+"?depth=9", "module-qualified-with-query")
